@@ -57,6 +57,14 @@ Recompose(T) ==
     \o (IF T.query # <<>> THEN <<63>> \o T.query[1] ELSE <<>>)
     \o (IF T.frag # <<>> THEN <<35>> \o T.frag[1] ELSE <<>>)
 
+(* the text exactly as written (an empty path stays empty): how bases and references are handed to the code *)
+Written(T) ==
+    (IF T.scheme # <<>> THEN T.scheme[1] \o <<58>> ELSE <<>>)
+    \o (IF T.auth # <<>> THEN <<SL, SL>> \o T.auth[1] ELSE <<>>)
+    \o T.path
+    \o (IF T.query # <<>> THEN <<63>> \o T.query[1] ELSE <<>>)
+    \o (IF T.frag # <<>> THEN <<35>> \o T.frag[1] ELSE <<>>)
+
 (* segments of a path, for the "no dot segments left / never above the root" laws *)
 RECURSIVE Segs(_, _, _)
 Segs(p, b, i) == IF i > Len(p) THEN <<SubSeq(p, b, Len(p))>>
